@@ -109,7 +109,7 @@ def task(W, payload):
     if payload["index"] % 3 == 2:
         # absolute flows under partial / strain stratifications with adjustments, and adjustment chains across stratifications
         prog = Gen(r, Opts(max_strats=3, force_strat=True, max_flows=6, allow_requests=False, allow_computed=False, allow_mixing=False,
-                           allow_inf_adjust=False, chain_adjust_bias=0.5,
+                           allow_inf_adjust=False, chain_adjust_bias=0.5, zero_adjust_bias=0.15,
                            kinds=["transition", "death", "universal_death", "crude_birth", "repl_birth", "import", "absolute", "absolute", "absolute", "absolute",
                                   "infection"])).program()
     else:
